@@ -58,8 +58,9 @@ def confirm(run, config, fname, args, model, key, what, exp=None, kind='mismatch
     reproduces. exp: {buffer name: expected term}; kind: 'mismatch' | 'fault' | 'ret'"""
     prof, feats = profile_of(config)
     model = dict(model or {})
-    rp = entry.replay(fname, args, model, prof, feats, ufs=ufs)
-    payload = {'entry': fname, 'config': config, 'profile': prof, 'features': list(feats), 'cpu': entry.cpu_mask(model),
+    tf = ' '.join(x for x in build.CONFIGS[config][1].replace('-C ', '-C').split() if 'target-feature' in x).replace('-C', '-C ')
+    rp = entry.replay(fname, args, model, prof, feats, ufs=ufs, rustflags=tf)
+    payload = {'entry': fname, 'config': config, 'profile': prof, 'features': list(feats), 'cpu': entry.cpu_mask(model), 'rustflags': tf,
                'args': entry.arg_hex(args, model, ufs), 'native': rp, 'kind': kind, 'what': what}
     reproduced = False
     if kind == 'fault':
@@ -120,7 +121,7 @@ def replay_file(pid, path):
     d = json.load(open(path))
     prof = d.get('profile', 'release')
     feats = tuple(d.get('features', ['std']))
-    b = entry.replay_bin(prof, feats)
+    b = entry.replay_bin(prof, feats, d.get('rustflags', ''))
     env = dict(os.environ)
     if d.get('cpu') is not None:
         env['VERIF_CPU'] = str(d['cpu'])
